@@ -7,11 +7,11 @@
 # run.sh is called as `sh run.sh <worktree>` and must exit 0 iff the demonstration passes.
 # Writes <seed-dir>/confirm.log; exit 0 iff all three facts hold.
 set -u
-sd=$(readlink -f "$1"); wt=/tmp/seedconfirm
+sd=$(readlink -f "$1"); wt=${SEEDWT:-/tmp/seedconfirm}
 export RUSTUP_TOOLCHAIN=stable-x86_64-unknown-linux-gnu CARGO_TARGET_DIR=$wt/target CARGO_NET_OFFLINE=true
 log=$sd/confirm.log; : > "$log"
 clean() { git -C $wt checkout -q -- . ; git -C $wt clean -fdq -e target ; }
-exec 8>>/tmp/seedconfirm.lock; flock -x 8
+exec 8>>$wt.lock; flock -x 8
 clean
 ( cd "$sd" && timeout 3000 sh run.sh $wt ) >>"$log" 2>&1; a=$?
 echo "== demo on clean tree: exit $a" | tee -a "$log"
